@@ -3,7 +3,7 @@
    `seesaw_grammar` is regenerated on every run from the runtime pyparsing element graph. *)
 From Coq Require Import List NArith.
 From DSD Require Import Base.Str Base.Errors Base.Val Model.Peg Model.DispatchPeg
-  Proofs.PegMono Proofs.PegStd Proofs.PegDoc Proofs.C13Base Proofs.C13Doc Proofs.C19Doc.
+  Proofs.PegMono Proofs.PegStd Proofs.PegDoc Proofs.C13Base Proofs.C13Doc Proofs.C19Doc Proofs.C19Lex Proofs.C19Io.
 From DSDGen Require Import SeesawGrammar.
 Import ListNotations.
 
@@ -29,3 +29,65 @@ Print Assumptions C19_result_independent_of_fuel.
 Theorem C19_parse_file_eq_string : forall content, parse_seesaw_file content = parse_seesaw content.
 Proof. exact ssw_parse_file_eq_string. Qed.
 Print Assumptions C19_parse_file_eq_string.
+
+(* Round trip, reporter[N, N]: all digit strings, blanks around every token, every statement end *)
+Theorem C19_roundtrip_reporter : forall n1 n2 y, num_ok n1 -> num_ok n2 -> rep_layout_ok y ->
+  ssw_body_ok (rep_render n1 n2 y) [rep_tree n1 n2].
+Proof. exact roundtrip_reporter. Qed.
+Print Assumptions C19_roundtrip_reporter.
+
+Theorem C19_roundtrip_reporter_parse_string : forall n1 n2 y b E,
+  num_ok n1 -> num_ok n2 -> rep_layout_ok y -> blanks ssw_ws b -> stmt_end ssw_ws E [] ->
+  no_tab (b ++ rep_render n1 n2 y ++ E) ->
+  exists f0, forall f, f0 <= f -> parse_seesaw_fuel f (b ++ rep_render n1 n2 y ++ E) = vals [rep_tree n1 n2].
+Proof. exact roundtrip_reporter_parse. Qed.
+Print Assumptions C19_roundtrip_reporter_parse_string.
+
+(* a wire w[N, N|f] parses to its token tree wherever it stands *)
+Theorem C19_wire_parses : forall full x w r, wire_ok w -> std_pre ssw_ws x = wire_text w ++ r ->
+  evals seesaw_nodes full 23 true (At x) (POk (At r) [wire_tree w]).
+Proof. exact sw_wire. Qed.
+Print Assumptions C19_wire_parses.
+
+(* Round trip, INPUT(N | NAME) = w[N, N|f] *)
+Theorem C19_roundtrip_input : forall x w y, ioname_ok x -> wire_ok w -> inp_layout_ok y ->
+  ssw_body_ok (inp_render x w y) [inp_tree x w].
+Proof. exact roundtrip_input. Qed.
+Print Assumptions C19_roundtrip_input.
+
+Theorem C19_roundtrip_input_parse_string : forall x w y b E,
+  ioname_ok x -> wire_ok w -> inp_layout_ok y -> blanks ssw_ws b -> stmt_end ssw_ws E [] ->
+  no_tab (b ++ inp_render x w y ++ E) ->
+  exists f0, forall f, f0 <= f -> parse_seesaw_fuel f (b ++ inp_render x w y ++ E) = vals [inp_tree x w].
+Proof. exact roundtrip_input_parse. Qed.
+Print Assumptions C19_roundtrip_input_parse_string.
+
+(* Rejection: an input bound to a fluorophore (to anything that does not start like a wire) *)
+Theorem C19_reject_input_fluorophore : forall x y rest pls b,
+  ioname_ok x -> inp_layout_ok y -> Forall ssw_blank_line pls -> blanks ssw_ws b ->
+  no_tab (concat pls ++ b ++ inp_head x y (kw_fluor ++ rest)) ->
+  exists f0, forall f, f0 <= f -> parse_seesaw_fuel f (concat pls ++ b ++ inp_head x y (kw_fluor ++ rest)) = err eParse.
+Proof. exact reject_input_fluorophore. Qed.
+Print Assumptions C19_reject_input_fluorophore.
+
+(* every text that the statement node consumes exactly (ssw_body_ok) parses alone to its tokens *)
+Theorem C19_statement_parse_string : forall b y E t,
+  blanks ssw_ws b -> stmt_start ssw_ws y -> ssw_body_ok y t -> stmt_end ssw_ws E [] ->
+  no_tab (b ++ y ++ E) ->
+  exists f0, forall f, f0 <= f -> parse_seesaw_fuel f (b ++ y ++ E) = vals t.
+Proof. exact ssw_statement_parse. Qed.
+Print Assumptions C19_statement_parse_string.
+
+(* ---- full statements not yet proved (listed under `partial` in the evidence) ---- *)
+(* OUTPUT(N | NAME) = Fluor[N] (and = wire): rendering as for INPUT *)
+Definition out_fluor_render (x : ioname) (n : num) (y : inp_layout) (b6 b7 b8 : pstr) : pstr :=
+  [79; 85; 84; 80; 85; 84]%N ++ ip_b1 y ++ 40%N :: ip_b2 y ++ ioname_text x ++ ip_b3 y ++ 41%N :: ip_b4 y ++ 61%N :: ip_b5 y ++
+  kw_fluor ++ b6 ++ 91%N :: b7 ++ num_text n ++ b8 ++ [93%N].
+Definition C19_roundtrip_output_fluor_full : Prop := forall x n y b6 b7 b8,
+  ioname_ok x -> num_ok n -> inp_layout_ok y -> blanks ssw_ws b6 -> blanks ssw_ws b7 -> blanks ssw_ws b8 ->
+  ssw_body_ok (out_fluor_render x n y b6 b7 b8)
+    [TList [TStr [79; 85; 84; 80; 85; 84]%N; TList [TStr (ioname_text x)]; TList [TStr kw_fluor; TStr (num_text n)]]].
+(* the statement kinds seesaw[..], conc[wire|gate|threshold, x*c], inputfanout, seesawOR, seesawAND have no Coq
+   rendering yet; their round trip is checked on the implementation and in the model/implementation
+   correspondence only (harness/ssw_texts.py is the renderer) *)
+Definition C19_default_fuel_suffices_full : Prop := forall text, parse_seesaw text <> err eFuel.
